@@ -66,6 +66,13 @@ pub struct Runner {
     pub ledger: Ledger,
     pub last: Vec<CsDump>,
     pub allow: Option<HashSet<Uuid>>,
+    pub allow_nums: Option<Vec<i64>>,
+    pub counting: Option<Arc<Counting>>,
+    /// library twin on a twin storage, driven in lock step (C14)
+    pub twin: Option<Box<Runner>>,
+    /// (twin only) AddVersion for an unknown client creates it first, as the HTTP entry point does
+    pub emulate_create: bool,
+    pub stranger: Uuid,
 }
 
 pub fn out_to_resp(out: &Out, namer: &mut Namer, pay: &Payloads) -> RespRec {
@@ -131,24 +138,45 @@ impl Runner {
             ledger: Ledger { acc: vec![vec![]; ncl] },
             last: vec![],
             allow,
+            allow_nums: job["allow"].as_array().map(|a| a.iter().filter_map(|x| x.as_i64()).collect()),
+            counting: None,
+            twin: None,
+            emulate_create: false,
+            stranger: Uuid::new_v4(),
         };
         r.open()?;
+        if job["twin"].as_bool() == Some(true) {
+            let mut tj = job.clone();
+            tj["twin"] = json!(false);
+            tj["driver"] = json!("lib");
+            tj["allow"] = Value::Null;
+            tj["id"] = json!(format!("{}-twin", id));
+            let mut t = Runner::new(&tj, scratch)?;
+            t.emulate_create = true;
+            r.twin = Some(Box::new(t));
+        }
         Ok(r)
     }
 
     pub fn open(&mut self) -> anyhow::Result<()> {
         let st = open_backend(&self.backend, &self.dir)?;
-        self.driver = Some(make_driver(&self.driver_kind, self.days, self.versions, self.allow.clone(), Shared(st.clone())));
+        let cnt = Counting::new(st.clone());
+        self.driver = Some(make_driver(&self.driver_kind, self.days, self.versions, self.allow.clone(), Shared(cnt.clone())));
+        self.counting = Some(cnt);
         self.storage = Some(st);
         Ok(())
     }
 
     pub fn close(&mut self) {
         self.driver = None;
+        self.counting = None;
         self.storage = None;
     }
 
     pub fn cleanup(&mut self) {
+        if let Some(t) = self.twin.as_mut() {
+            t.cleanup();
+        }
         self.close();
         if self.backend == "sqlite" {
             let _ = std::fs::remove_dir_all(&self.dir);
@@ -229,7 +257,79 @@ impl Runner {
         let mut http: Option<HttpInfo> = None;
         let mut walk = json!({"from": 0, "seq": [], "term": ""});
         let mut tool_err: Option<String> = None;
+        let mut hg: Option<Value> = None;
+        let mut btok: i64 = 0;
+        let txn0 = self.counting.as_ref().map(|c| c.count()).unwrap_or(0);
         match op.as_str() {
+            "SetAllow" => {
+                // rebuild the web server on the SAME storage with a (new) allow-list
+                self.allow_nums = s["allow"].as_array().map(|a| a.iter().filter_map(|x| x.as_i64()).collect());
+                self.allow = self.allow_nums.as_ref().map(|a| a.iter().map(|i| self.clients[(*i - 1) as usize]).collect());
+                let cnt = self.counting.as_ref().unwrap().clone();
+                self.driver = None;
+                self.driver = Some(make_driver(&self.driver_kind, self.days, self.versions, self.allow.clone(), Shared(cnt)));
+                resp = RespRec::kind("reopened");
+                req["op"] = json!("Reopen");
+            }
+            "Raw" => {
+                let g = s["hg"].clone();
+                let (rr, cnum2, argn) = self.concretize(&g, s, ci);
+                let r = self.driver.as_mut().unwrap().raw(&rr);
+                let route = g["route"].as_str().unwrap_or("");
+                let method = g["method"].as_str().unwrap_or("");
+                let proto_op = match (route, method) {
+                    ("av", "POST") => "AddVersion",
+                    ("gcv", "GET") => "GetChildVersion",
+                    ("as", "POST") => "AddSnapshot",
+                    ("gs", "GET") => "GetSnapshot",
+                    _ => "",
+                };
+                let cls = g["cls"].as_str().unwrap_or("no");
+                match r {
+                    None => tool_err = Some("Raw needs an HTTP driver".into()),
+                    Some(Err(m)) => {
+                        resp = RespRec { kind: "panic".into(), msg: m, ..Default::default() };
+                        req["op"] = json!("Http");
+                        req["c"] = json!(0);
+                    }
+                    Some(Ok((info, body))) => {
+                        let st = info.status;
+                        let as_proto = !proto_op.is_empty()
+                            && (cls == "yes" || (cls == "either" && matches!(st, 200 | 409 | 410)));
+                        if as_proto {
+                            let out = decode(proto_op, &info, body);
+                            if let Out::Ok { vid, .. } = &out {
+                                let a = self.namer.uuid(argn);
+                                self.ledger.acc[(cnum2 - 1).max(0) as usize].push((*vid, a));
+                            }
+                            if let Out::Found { data, .. } | Out::Snap { data, .. } = &out {
+                                btok = self.pay.tok_of(data);
+                            }
+                            resp = out_to_resp(&out, &mut self.namer, &self.pay);
+                            req["op"] = json!(proto_op);
+                            req["c"] = json!(cnum2);
+                            req["arg"] = json!(argn);
+                        } else {
+                            resp = if st >= 500 {
+                                RespRec { kind: "error".into(), msg: format!("http {st}"), ..Default::default() }
+                            } else if st >= 400 {
+                                RespRec { kind: "refused".into(), vid: st as i64, ..Default::default() }
+                            } else {
+                                RespRec { kind: "other".into(), vid: st as i64, ..Default::default() }
+                            };
+                            req["op"] = json!("Http");
+                            req["c"] = json!(0);
+                        }
+                        http = Some(info);
+                    }
+                }
+                if let Some(t) = rr_tok(&rr, &self.pay) {
+                    req["tok"] = json!(t);
+                }
+                let mut g2 = g.clone();
+                g2["c"] = json!(cnum2);
+                hg = Some(g2);
+            }
             "Tick" => {
                 let d = self.day + 1;
                 if !self.set_day(d) {
@@ -275,19 +375,34 @@ impl Runner {
             "AddVersion" | "AddSnapshot" => {
                 let c = self.clients[ci];
                 let a = self.resolve(&s["arg"], ci);
-                let tok = self.pay.fresh_tok();
-                let body = match s.get("bytes").and_then(|b| b.as_str()) {
+                let (tok, body) = match s.get("bytes").and_then(|b| b.as_str()) {
                     Some(hex) => {
                         let b = crate::unhex(hex);
-                        self.pay.register(tok, b.clone());
-                        b
+                        (self.pay.intern(b.clone()), b)
                     }
-                    None => self.pay.make(tok),
+                    None => {
+                        let tok = self.pay.fresh_tok();
+                        (tok, self.pay.make(tok))
+                    }
                 };
                 req["arg"] = json!(self.namer.name(a));
                 req["tok"] = json!(tok);
+                let emu = self.emulate_create && op == "AddVersion";
+                let st_for_create = self.storage.as_ref().unwrap().clone();
                 let d = self.driver.as_mut().unwrap();
-                let (out, h) = if op == "AddVersion" { d.add_version(c, a, body) } else { d.add_snapshot(c, a, body) };
+                let (mut out, h) = if op == "AddVersion" { d.add_version(c, a, body.clone()) } else { d.add_snapshot(c, a, body.clone()) };
+                if emu && matches!(out, Out::NoSuchClient) {
+                    let r = (|| -> anyhow::Result<()> {
+                        let mut txn = st_for_create.txn(c)?;
+                        txn.new_client(Uuid::nil())?;
+                        txn.commit()?;
+                        Ok(())
+                    })();
+                    out = match r {
+                        Ok(()) => d.add_version(c, a, body).0,
+                        Err(e) => Out::Error { msg: format!("{e:#}") },
+                    };
+                }
                 if let Out::Ok { vid, .. } = &out {
                     if let Some(n) = s["exp"]["vid"].as_i64() {
                         if s["exp"]["kind"].as_str() == Some("ok") {
@@ -304,12 +419,18 @@ impl Runner {
                 let a = self.resolve(&s["arg"], ci);
                 req["arg"] = json!(self.namer.name(a));
                 let (out, h) = self.driver.as_mut().unwrap().get_child_version(c, a);
+                if let Out::Found { data, .. } = &out {
+                    btok = self.pay.tok_of(data);
+                }
                 resp = out_to_resp(&out, &mut self.namer, &self.pay);
                 http = h;
             }
             "GetSnapshot" => {
                 let c = self.clients[ci];
                 let (out, h) = self.driver.as_mut().unwrap().get_snapshot(c);
+                if let Out::Snap { data, .. } = &out {
+                    btok = self.pay.tok_of(data);
+                }
                 resp = out_to_resp(&out, &mut self.namer, &self.pay);
                 http = h;
             }
@@ -341,7 +462,19 @@ impl Runner {
                 tool_err = Some(format!("unknown op {o}"));
             }
         }
+        let ntxn = self.counting.as_ref().map(|c| c.count()).unwrap_or(0).saturating_sub(txn0);
         let ds = self.dump();
+        // the library twin executes the same step on its own storage
+        let mut twin_json: Option<Value> = None;
+        let unlisted = match (&self.allow_nums, cnum >= 1) {
+            (Some(a), true) => !a.contains(&cnum),
+            _ => false,
+        };
+        if self.twin.is_some() && !matches!(op.as_str(), "SetAllow" | "Raw") && !unlisted {
+            let t = self.twin.as_mut().unwrap();
+            let (tev, _) = t.step(s, idx);
+            twin_json = Some(json!({"resp": tev["resp"], "st": tev["st"]}));
+        }
         // divergence from the planned edge?
         let mut div = false;
         if let Some(exp) = s.get("exp") {
@@ -400,7 +533,20 @@ impl Runner {
             ev["walk"] = walk;
         }
         if let Some(h) = http.as_ref() {
-            ev["http"] = h.to_json();
+            ev["http"] = h.to_json(&mut self.namer, btok);
+        }
+        if let Some(g) = hg {
+            ev["hg"] = g;
+        }
+        if let Some(t) = twin_json {
+            ev["twin"] = t;
+        }
+        if self.driver_kind != "lib" {
+            ev["allow"] = match &self.allow_nums {
+                Some(a) => json!({"on": true, "ids": a}),
+                None => json!({"on": false, "ids": []}),
+            };
+            ev["ntxn"] = json!(ntxn);
         }
         if !resp.msg.is_empty() {
             ev["msg"] = json!(resp.msg);
@@ -429,6 +575,138 @@ impl Runner {
         self.last = ds;
         ev
     }
+}
+
+fn rr_tok(rr: &RawReq, pay: &Payloads) -> Option<i64> {
+    if rr.body.is_empty() {
+        None
+    } else {
+        let t = pay.tok_of(&rr.body);
+        if t >= 0 {
+            Some(t)
+        } else {
+            None
+        }
+    }
+}
+
+impl Runner {
+    /// Turn a grammar record (spec/SyncHttp.tla) into concrete request bytes.
+    /// Returns the request, the client number it acts for (0 = none) and the abstract path id.
+    fn concretize(&mut self, g: &Value, s: &Value, ci: usize) -> (RawReq, i64, i64) {
+        let cnum = s["c"].as_i64().unwrap_or(0);
+        let cu = if cnum >= 1 { self.clients[ci] } else { self.stranger };
+        let route = g["route"].as_str().unwrap_or("");
+        let arg = if s.get("arg").is_some() { self.resolve(&s["arg"], ci) } else { Uuid::nil() };
+        let argn = self.namer.name(arg);
+        let seg = match g["pid"].as_str().unwrap_or("valid") {
+            "valid" => format!("/{arg}"),
+            "upper" => format!("/{}", arg.to_string().to_uppercase()),
+            "braced" => format!("/%7B{arg}%7D"),
+            "simple" => format!("/{}", arg.simple()),
+            "urn" => format!("/urn:uuid:{arg}"),
+            "short" => format!("/{}", &arg.to_string()[..35]),
+            "long" => format!("/{arg}0"),
+            "nonhex" => "/zzzzzzzz-zzzz-zzzz-zzzz-zzzzzzzzzzzz".to_string(),
+            "empty" => "/".to_string(),
+            "none" => "".to_string(),
+            "extra" => format!("/{arg}/extra"),
+            _ => format!("/{arg}"),
+        };
+        let uri = match route {
+            "av" => format!("/v1/client/add-version{seg}"),
+            "gcv" => format!("/v1/client/get-child-version{seg}"),
+            "as" => format!("/v1/client/add-snapshot{seg}"),
+            "gs" => "/v1/client/snapshot".to_string(),
+            "gs_slash" => "/v1/client/snapshot/".to_string(),
+            "index" => "/".to_string(),
+            "unknown" => "/v1/client/nope".to_string(),
+            "unknown2" => "/v2/client/snapshot".to_string(),
+            "prefix" => "/v1/client".to_string(),
+            _ => "/".to_string(),
+        };
+        let mut headers: Vec<(String, Vec<u8>)> = vec![];
+        let cs = cu.to_string();
+        match g["cid"].as_str().unwrap_or("valid") {
+            "valid" => headers.push(("X-Client-Id".into(), cs.clone().into_bytes())),
+            "absent" => {}
+            "empty" => headers.push(("X-Client-Id".into(), vec![])),
+            "nonascii" => headers.push(("X-Client-Id".into(), vec![0xff, 0xfe, 0xc3, 0x28])),
+            "utf8" => headers.push(("X-Client-Id".into(), "клиент".as_bytes().to_vec())),
+            "short" => headers.push(("X-Client-Id".into(), cs[..35].as_bytes().to_vec())),
+            "long" => headers.push(("X-Client-Id".into(), format!("{cs}0").into_bytes())),
+            "garbage" => headers.push(("X-Client-Id".into(), b"not-a-uuid".to_vec())),
+            "braced" => headers.push(("X-Client-Id".into(), format!("{{{cs}}}").into_bytes())),
+            "urn" => headers.push(("X-Client-Id".into(), format!("urn:uuid:{cs}").into_bytes())),
+            "simple" => headers.push(("X-Client-Id".into(), cu.simple().to_string().into_bytes())),
+            "upper" => headers.push(("X-Client-Id".into(), cs.to_uppercase().into_bytes())),
+            "spaces" => headers.push(("X-Client-Id".into(), format!(" {cs} ").into_bytes())),
+            _ => headers.push(("X-Client-Id".into(), cs.clone().into_bytes())),
+        }
+        let right = match route {
+            "av" => Some(HS_CT),
+            "as" => Some(SNAP_CT),
+            _ => None,
+        };
+        let other = match route {
+            "av" => SNAP_CT,
+            _ => HS_CT,
+        };
+        match g["ct"].as_str().unwrap_or("right") {
+            "right" => {
+                if let Some(r) = right {
+                    headers.push(("Content-Type".into(), r.as_bytes().to_vec()));
+                }
+            }
+            "absent" => {}
+            "wrong" => headers.push(("Content-Type".into(), b"application/json".to_vec())),
+            "octet" => headers.push(("Content-Type".into(), b"application/octet-stream".to_vec())),
+            "swapped" => headers.push(("Content-Type".into(), other.as_bytes().to_vec())),
+            "upper" => headers.push(("Content-Type".into(), right.unwrap_or(HS_CT).to_uppercase().into_bytes())),
+            "params" => headers.push(("Content-Type".into(), format!("{}; charset=utf-8", right.unwrap_or(HS_CT)).into_bytes())),
+            "prefix" => headers.push(("Content-Type".into(), format!("{}x", right.unwrap_or(HS_CT)).into_bytes())),
+            _ => {}
+        }
+        let size = g["size"].as_u64().unwrap_or(0) as usize;
+        let mut body = vec![];
+        if size > 0 {
+            let n = self.pay.fresh_tok();
+            body = big_payload(n, size);
+            self.pay.intern(body.clone());
+        }
+        let nch = g["chunks"].as_u64().unwrap_or(1) as usize;
+        let chunks = if nch <= 1 || size == 0 {
+            vec![]
+        } else {
+            let base = size / nch;
+            let mut v = vec![base.max(1); nch - 1];
+            v[0] = (base / 3).max(1); // uneven first chunk
+            v
+        };
+        (RawReq { method: g["method"].as_str().unwrap_or("GET").to_string(), uri, headers, body, chunks }, cnum, argn)
+    }
+}
+
+pub fn big_payload(tok: i64, size: usize) -> Vec<u8> {
+    let mut v = Vec::with_capacity(size);
+    if size < 16 {
+        // tiny bodies: vary the bytes with the counter
+        for i in 0..size {
+            v.push(((tok as u64 >> (8 * (i % 8))) & 0xff) as u8 ^ if i == 0 { 0 } else { 0xA5 });
+        }
+        return v;
+    }
+    let head = format!("big:{tok}:");
+    v.extend_from_slice(head.as_bytes());
+    let mut x = 0x2545F4914F6CDD1Du64 ^ (tok as u64).wrapping_mul(0x9E3779B97F4A7C15);
+    while v.len() < size {
+        x ^= x << 13;
+        x ^= x >> 7;
+        x ^= x << 17;
+        v.extend_from_slice(&x.to_le_bytes());
+    }
+    v.truncate(size);
+    v
 }
 
 /// Run one job; events are appended to `w`.  Returns a summary.
